@@ -51,10 +51,10 @@ def bounds(tier):
                 'simplex': ['2 variables, <=3 constraints (>= or <=), coefficients [-2,2], all row pairs + 1500 seeded triples'],
                 'proofs': 'OmegaHOL / simplex_macro / integer_simplex on 250 seeded concrete systems (2-3 variables, 2-4 constraints, constants [-3,3]) + 576 systems bounding one linear form twice, in every order',
                 'constants': 'symbolic in [-%d,%d]' % (CRANGE, CRANGE)}
-    return {'omega': ['2 variables, 3 constraints, coefficients [-3,3]', '3 variables, 3 constraints, coefficients [-1,1] exhaustive (19683) + [-2,2] 8000 seeded',
-                      '2 variables, 4 constraints, coefficients [-2,2]: 16000 seeded', '4 variables, 4 constraints, coefficients [-2,2]: 1600 seeded',
-                      '2 variables, coefficients {-3,-2,2,3}: all pairs and triples; 3 variables {-3,-2,0,2,3}: 4000 seeded triples'],
-            'simplex': ['2 variables <=3 constraints exhaustive [-2,2]', '3 variables, 3-4 constraints, 8000 seeded'],
+    return {'omega': ['2 variables, 3 constraints, coefficients [-3,3]', '3 variables, 3 constraints, coefficients [-1,1] exhaustive (19683) + [-2,2] 4000 seeded',
+                      '2 variables, 4 constraints, coefficients [-2,2]: 8000 seeded', '4 variables, 4 constraints, coefficients [-2,2]: 800 seeded',
+                      '2 variables, coefficients {-3,-2,2,3}: all pairs and triples; 3 variables {-3,-2,0,2,3}: 1600 seeded triples'],
+            'simplex': ['2 variables <=3 constraints exhaustive [-2,2]', '3 variables, 3-4 constraints, 4000 seeded'],
             'proofs': '4000 seeded concrete systems', 'constants': 'symbolic in [-%d,%d]' % (CRANGE, CRANGE)}
 
 
@@ -111,23 +111,23 @@ def units(tier, seed):
         r3 = rows(3, -1, 1)
         for first in range(len(r3)):
             us.append(('omega', 3, (-1, 1), 3, 'prefix', first))
-        for i in range(40):
+        for i in range(20):
             us.append(('omega', 3, (-2, 2), 3, 'sample', (seed, i, 200)))
-        for i in range(40):
+        for i in range(20):
             us.append(('omega', 2, (-2, 2), 4, 'sample', (seed, i, 400)))
-        for i in range(16):
+        for i in range(8):
             us.append(('omega', 4, (-2, 2), 4, 'sample', (seed, i, 100)))
         NU = ('set', (-3, -2, 2, 3))
         for first in range(16):
             us.append(('omega', 2, NU, 2, 'prefix', first))
             us.append(('omega', 2, NU, 3, 'prefix', first))
-        for i in range(40):
+        for i in range(16):
             us.append(('omega', 3, ('set', (-3, -2, 0, 2, 3)), 3, 'sample', (seed, i, 100)))
         r2 = rows(2, -2, 2)
         for first in range(len(r2)):
             us.append(('simplex', 2, (-2, 2), 2, 'prefix', first))
             us.append(('simplex', 2, (-2, 2), 3, 'prefix', first))
-        for i in range(40):
+        for i in range(20):
             us.append(('simplex', 3, (-2, 2), 3, 'sample', (seed, i, 100)))
             us.append(('simplex', 3, (-2, 2), 4, 'sample', (seed, i, 100)))
         for i in range(80):
